@@ -342,6 +342,7 @@ end
     add("loader-traversal", "for _, n in ipairs({'../../../../etc/passwd', '..:..:_sandbox_phase1', '/etc/passwd', '_sandbox_phase1', 'Module:../x'}) do local ok, m = pcall(require, n) if ok and m then out = out .. 'loaded:' .. n .. ';' out = out .. damage(m, 'lt') end end")
     add("loader-chunk", "for _, L in ipairs({_new_loader, package and package.loaders and package.loaders[2]}) do for _, n in ipairs({'%s:envprobe', 'envprobe'}) do local ok, f = pcall(L, n) if ok and type(f) == 'function' then local ok2, t = pcall(f) if ok2 and type(t) == 'table' then for k, v in pairs(t) do out = out .. damage(v, 'lc' .. k) end end end end end" % mod_ns)
     add("jsondecode-python-objects", "local ok, t = pcall(mw.text.jsonDecode, '{\\\"1\\\": {\\\"k\\\": \\\"v\\\"}, \\\"2\\\": [1,2]}') if ok and type(t) == 'table' then for k, v in pairs(t) do if type(v) == 'userdata' then out = out .. 'pyobj:' .. tostring(k) .. ';' pcall(function() v.clear() out = out .. 'mutated;' end) pcall(function() out = out .. damage(v.__class__, 'jd') end) end end end")
+    add("loader-host-file", "for _, n in ipairs({HOSTLUA, HOSTLUA:gsub('^/', '//'), '..' .. HOSTLUA, 'x/../../../../../../../..' .. HOSTLUA, HOSTLUA:gsub('/', ':')}) do local ok, m = pcall(require, n) if ok and m then out = out .. 'HOSTFILE=' .. tostring(m) .. ';' end local ok2, d = pcall(mw.loadData, n) if ok2 and d then out = out .. 'HOSTFILE=' .. tostring(d) .. ';' end end")
     add("loaddata-env", "local ok, d = pcall(mw.loadData, '%s:dat') if ok then out = out .. damage(getmetatable(d), 'ldm') end" % mod_ns)
     add("debug-lib", "if debug then for _, n in ipairs({'getinfo','getupvalue','getregistry','sethook','getfenv','setmetatable','getmetatable'}) do if debug[n] then out = out .. 'debug.' .. n .. ';' end end pcall(function() local r = debug.getregistry() out = out .. damage(r, 'reg') end) end")
     add("tostring-userdata", "for k, v in pairs(_G) do if type(v) == 'userdata' then pcall(function() local s = tostring(v) end) pcall(function() local c = mw.clone(v) out = out .. damage(c, 'cl') end) end end")
@@ -358,11 +359,16 @@ def run_attacks(spec, obs):
     os.makedirs(adir, exist_ok=True)
     pwn = os.path.join(adir, "pwn_")
     os.environ["VF_CANARY_SECRET"] = "s3cr3t-canary-value"
+    # a Lua file on the host, OUTSIDE the package's lua directory: modules must not be able to load it
+    hostlua = os.path.join(tmp, "c06_hostfile", "secretmod")
+    os.makedirs(os.path.dirname(hostlua), exist_ok=True)
+    with open(hostlua + ".lua", "w") as f:
+        f.write("return 's3cr3t-canary-value'")
     results = []
     with fresh(lua=True) as ctx:
         atts = attacks()
         for name, src in atts:
-            ctx.add_page("Module:att " + name.replace("_", "-"), 828, src.replace("PWNFILE", json.dumps(pwn)), model="Scribunto")
+            ctx.add_page("Module:att " + name.replace("_", "-"), 828, src.replace("PWNFILE", json.dumps(pwn)).replace("HOSTLUA", "(" + json.dumps(hostlua) + ")"), model="Scribunto")
         ctx.add_page("Module:dat", 828, "return {a = 1}", model="Scribunto")
         ctx.add_page("Module:ok", 828, "local e = {}\nfunction e.f(fr) return 'ok' end\nreturn e", model="Scribunto")
         ctx.db_conn.commit()
